@@ -78,9 +78,9 @@ func q(b []byte) string {
 // backend that answers without reading the message lets the LMTP code path
 // write final replies right after the 354; those octets are returned as early
 // and belong in front of whatever is received later.
-func openData(w *harness.Wire, lmtp bool, nrcpt int) (early []byte, errText string) {
+func openData(w *harness.Wire, lmtp bool, nrcpt int, mailParams ...string) (early []byte, errText string) {
 	var sb strings.Builder
-	fmt.Fprintf(&sb, "%s cli\r\nMAIL FROM:<s@x>\r\n", greetWord(lmtp))
+	fmt.Fprintf(&sb, "%s cli\r\nMAIL FROM:<s@x>%s\r\n", greetWord(lmtp), strings.Join(append([]string{""}, mailParams...), " "))
 	for i := 0; i < nrcpt; i++ {
 		fmt.Fprintf(&sb, "RCPT TO:<r%d@x>\r\n", i)
 	}
